@@ -37,6 +37,9 @@ MODELLED_NOT_VERIFIED = [
 ]
 
 SOH = b"\x01"
+# a real reader that is handed the same message again and again (consumed <= 0) spins for ever; the runner
+# cuts it off after this many deliveries and reports `stalled` (no legitimate case delivers that many)
+MAX_DELIVERIES = 200
 CORPUS = os.path.join(C.VERIF, "corpus", "codec", "c10_corpus.json")
 
 
@@ -295,7 +298,7 @@ def frame_problems(enc: bytes):
     if not (len(v) == 3 and all(48 <= b <= 57 for b in v)):
         probs.add("checksum-not-3-digits")
         try:
-            got = int(v.decode("latin-1"))
+            got = int(v.decode("latin-1")) if len(v) < 100 else None
         except ValueError:
             got = None
     else:
@@ -312,7 +315,7 @@ def frame_problems(enc: bytes):
         if not bl or not all(48 <= c <= 57 for c in bl) or (len(bl) > 1 and bl[0] == 48):
             probs.add("bodylength-not-canonical")
         else:
-            if int(bl) != (i + 1) - (b + 1):
+            if len(bl) > 18 or int(bl) != (i + 1) - (b + 1):
                 probs.add("bodylength-mismatch")
     return probs
 
@@ -421,7 +424,7 @@ def check_reader(m: bytes):
     chunks, frames = reader_stream(m)
     if chunks is None:
         return "huge-declared-length", []
-    rep = K.run_reader(chunks)
+    rep = K.run_reader(chunks, max_steps=MAX_DELIVERIES)
     inp = {"kind": "reader", "malformed": m.hex(), "chunks": [c.hex() for c in chunks]}
     parts = rep.split(" D ")
     head = parts[0].split(" ")
@@ -570,7 +573,7 @@ def correspondence(ctx):
         part = rd_cases[off:off + 5000]
         model = drv.batch(["codec.feed " + " ".join(C.cp(c) for c in chunks) for _, chunks in part])
         for (lab, chunks), ml in zip(part, model):
-            il = K.run_reader(chunks)
+            il = K.run_reader(chunks, max_steps=MAX_DELIVERIES)
             n_eval += 1
             ndel = il.count(" D ")
             key = "delivered=%d" % min(ndel, 3) + ("" if il.split(" ")[2] == "-" else "/" + il.split(" ")[2])
@@ -580,7 +583,7 @@ def correspondence(ctx):
                             "model": ml[:300], "impl": il[:300]})
     if rd_cases:
         lab, chunks = rd_cases[len(rd_cases) // 2]
-        samples.append({"input": {"feed": [c.hex() for c in chunks], "label": lab}, "model": K.run_reader(chunks)[:160]})
+        samples.append({"input": {"feed": [c.hex() for c in chunks], "label": lab}, "model": K.run_reader(chunks, max_steps=MAX_DELIVERIES)[:160]})
 
     ctx.note("reader correspondence done at %.1fs" % ctx.elapsed())
     tot = sum(branches.values()) or 1
